@@ -87,6 +87,11 @@ def _check_text(t, exp, where):
     allplain = all(col == 0 for _, col in exp)
     if bool(t == plain) != allplain:
         return '%s: (text == %r) is %s' % (where, plain, t == plain)
+    if not exp:
+        for col in (0, 1):
+            ch = e['fm'][col]('')
+            if not (t == ch) or not (ch == t):
+                return '%s: the empty text is not equal to an empty chunk' % where
     # comparison with strings that are NOT the text: every proper prefix, and the text plus one character
     for s in [plain[:k] for k in range(len(plain))] + [plain + 'a']:
         if (t == s) or (s == t) or not (t != s):
